@@ -22,6 +22,9 @@ PKeys == {"exp", "nbf", "iat", "iss", "ca", "cb"}
 PAbsent == "absent"
 GenericVals == {"absent", "null", "v1", "v2"}
 TimeVals == {"absent", "null", "past", "future", "nonstr", "emptystr", "garbage"}
+\* "soon": an instant a few seconds after the parser history starts - in the future until the clock of
+\* the history ticks, in the past afterwards (time passing is an action of the model: "tick")
+SoonVal == "soon"
 
 NoV == "none"
 VKinds == {"accept", "reject", "magic", "expdflt", "nbfdflt"}
@@ -35,7 +38,8 @@ PInit(layer, pr) ==
    valid  |-> [k \in PKeys |-> IF layer = "prelude" /\ k = "exp" THEN "expdflt"
                                ELSE IF layer = "prelude" /\ k = "nbf" THEN "nbfdflt" ELSE NoV],
    footer |-> "none",
-   assertion |-> "none"]
+   assertion |-> "none",
+   clock  |-> 0]
 
 CheckClaim(ps, k, v)       == [ps EXCEPT !.expect[k] = v]
 ValidateClaim(ps, k, kind) == [ps EXCEPT !.expect[k] = "any", !.valid[k] = kind]
@@ -55,6 +59,7 @@ PApply(ps, o) ==
     [] o.op = "footer"    -> PSetFooter(ps, o.v)
     [] o.op = "assertion" -> PSetAssertion(ps, o.v)
     [] o.op = "parse"     -> ps
+    [] o.op = "tick"      -> [ps EXCEPT !.clock = 1]
 
 (***************************************************************************)
 (* A token presented to a parser: how it was minted (Core origin), one     *)
@@ -68,7 +73,11 @@ WireOf(t) == IF t.e = NoEdit THEN MintWire(t.o) ELSE ApplyEdit(t.o, MintWire(t.o
 (***************************************************************************)
 (* Verdict of a validator kind on a payload value class                    *)
 (***************************************************************************)
-Verdict(kind, pv) ==
+\* the class of a time value at the current clock of the history
+AtClock(pv, clock) == IF pv = SoonVal THEN (IF clock = 0 THEN "future" ELSE "past") ELSE pv
+
+VerdictAt(kind, pv0, clock) ==
+  LET pv == AtClock(pv0, clock) IN
   CASE kind = "accept"  -> TRUE
     [] kind = "reject"  -> FALSE
     [] kind = "magic"   -> pv = "v1"
@@ -79,6 +88,8 @@ Verdict(kind, pv) ==
                            ELSE IF pv \in {"nonstr", "emptystr"} THEN ~FixD3
                            ELSE FALSE
 
+Verdict(kind, pv) == VerdictAt(kind, pv, 0)
+
 IsNullish(pv) == pv \in {"absent", "null"}
 
 \* GenericParser::verify_claims: the keys of the expected-claim map, then (FixD7) the
@@ -88,7 +99,7 @@ Phase2(ps) == IF FixD7 THEN {k \in PKeys : ps.valid[k] # NoV /\ ps.expect[k] = P
 HasV(ps, k) == ps.valid[k] # NoV
 
 Passes(ps, t, k) ==
-  IF HasV(ps, k) THEN Verdict(ps.valid[k], t.claims[k])
+  IF HasV(ps, k) THEN VerdictAt(ps.valid[k], t.claims[k], ps.clock)
   ELSE ~IsNullish(t.claims[k]) /\ t.claims[k] = ps.expect[k]
 
 FailKind(ps, t, k) ==
@@ -184,7 +195,7 @@ ExpectIff(ps, t, key) ==
        /\ obs.res = "ok" => \A k \in plain : ~IsNullish(t.claims[k]) /\ t.claims[k] = ps.expect[k]
        /\ (obs.res = "claim" /\ obs.errkind = "missing") => IsNullish(t.claims[obs.errkey])
        /\ ((\A k \in plain : ~IsNullish(t.claims[k]) /\ t.claims[k] = ps.expect[k])
-            /\ (\A k \in PKeys : HasV(ps, k) /\ (k \in Phase1(ps) \cup Phase2(ps)) => Verdict(ps.valid[k], t.claims[k])))
+            /\ (\A k \in PKeys : HasV(ps, k) /\ (k \in Phase1(ps) \cup Phase2(ps)) => VerdictAt(ps.valid[k], t.claims[k], ps.clock)))
           => obs.res = "ok"
 
 \* C16: validators run only on authenticated payloads, with the payload value, at most
@@ -195,15 +206,15 @@ ValidatorDiscipline(ps, t, key) ==
   IN /\ ~Authentic(ps, t, key) => (obs.res = "pre" /\ obs.calls = <<>>)
      /\ \A i \in 1..Len(obs.calls) : obs.calls[i] = CallOf(ps, t, obs.calls[i][1])
      /\ obs.res = "ok" => /\ CallSet(obs) = {CallOf(ps, t, k) : k \in {x \in registered : Logged(ps, x)}}
-                          /\ \A k \in registered : Verdict(ps.valid[k], t.claims[k])
-     /\ (Authentic(ps, t, key) /\ t.json /\ \E k \in registered : ~Verdict(ps.valid[k], t.claims[k]))
+                          /\ \A k \in registered : VerdictAt(ps.valid[k], t.claims[k], ps.clock)
+     /\ (Authentic(ps, t, key) /\ t.json /\ \E k \in registered : ~VerdictAt(ps.valid[k], t.claims[k], ps.clock))
           => obs.res = "claim"
 
 \* C11 / C12 on the default parser
 ExpRejects(ps, t, key) ==
-  (ps.valid["exp"] = "expdflt" /\ ModelObs(ps, t, key).res = "ok") => t.claims["exp"] \in {"absent", "null", "future"}
+  (ps.valid["exp"] = "expdflt" /\ ModelObs(ps, t, key).res = "ok") => AtClock(t.claims["exp"], ps.clock) \in {"absent", "null", "future"}
 NbfRejects(ps, t, key) ==
-  (ps.valid["nbf"] = "nbfdflt" /\ ModelObs(ps, t, key).res = "ok") => t.claims["nbf"] \in {"absent", "null", "past"}
+  (ps.valid["nbf"] = "nbfdflt" /\ ModelObs(ps, t, key).res = "ok") => AtClock(t.claims["nbf"], ps.clock) \in {"absent", "null", "past"}
 
 \* the code-shaped outcome is one of the allowed observations
 ModelAllowed(ps, t, key) == ParseAllowed(ps, t, key, ModelObs(ps, t, key))
